@@ -75,7 +75,7 @@ def same_behaviour(src1: str, src2: str) -> bool:
 
 def place_of(v: Dict[str, Any]) -> Any:
     d = v.get("detail", {})
-    return (d.get("block"), d.get("field"), d.get("detector"))
+    return (d.get("block"), d.get("field"), d.get("detector"), d.get("txn"))
 
 
 def by_repair(
